@@ -6,8 +6,20 @@ import json, os, re, subprocess, sys
 os.chdir("/verif")
 tier = sys.argv[1] if len(sys.argv) > 1 and sys.argv[1] in ("quick", "thorough") else "quick"
 only = [a for a in sys.argv[1:] if a not in ("quick", "thorough")]
-ALSO = {"C01": ["C08"], "C03": ["C08"], "C05": ["C06"], "C12": ["C08"], "C14": ["C16"], "C16": ["C14"], "C02": [], "C07": [], "C11": []}
+ALSO = {"C01": ["C08"], "C03": ["C08"], "C05": ["C06"], "C12": ["C08"], "C09": ["C18"], "C14": ["C16"], "C16": ["C14"], "C02": [], "C07": [], "C11": []}
 rows = []
+# evidence and replay files written while a seeded change is applied describe the changed tree: put them back at the end
+import shutil, tempfile, glob, atexit
+_snap = tempfile.mkdtemp(prefix="verif-runseeds-", dir="/var/tmp")
+shutil.copytree("evidence", os.path.join(_snap, "evidence"))
+_before = set(glob.glob("replays/*/*"))
+def _restore():
+    shutil.rmtree("evidence", ignore_errors=True)
+    shutil.copytree(os.path.join(_snap, "evidence"), "evidence")
+    for f in set(glob.glob("replays/*/*")) - _before:
+        os.remove(f)
+    shutil.rmtree(_snap, ignore_errors=True)
+atexit.register(_restore)
 for sid in sorted(os.listdir("seeded")):
     d = os.path.join("seeded", sid)
     mp = os.path.join(d, "meta.json")
